@@ -710,9 +710,13 @@ def clip(a, a_min=None, a_max=None, out=None, out_like=None, sizing='optimal', m
 
         return utils.clip(x.val, val_min=val_min, val_max=val_max) * precision_cast(2**(n_frac - x.n_frac))
 
-    # bounds given as fixed-point objects count by their values
-    kwargs['a_min'] = a_min.get_val() if isinstance(a_min, Fxp) else a_min
-    kwargs['a_max'] = a_max.get_val() if isinstance(a_max, Fxp) else a_max
+    # the bounds may also be given under NumPy's newer keyword names
+    if 'min' in kwargs: a_min = kwargs.pop('min')
+    if 'max' in kwargs: a_max = kwargs.pop('max')
+    # bounds given as fixed-point objects count by their values, lists and tuples of numbers like arrays
+    _bound = lambda b: b.get_val() if isinstance(b, Fxp) else np.asarray(b) if isinstance(b, (list, tuple)) else b
+    kwargs['a_min'] = _bound(a_min)
+    kwargs['a_max'] = _bound(a_max)
     return _function_over_one_var(repr_func=np.clip, raw_func=_clip_raw, x=a, out=out, out_like=out_like, sizing=sizing, method=method, **kwargs)
 
 @implements(np.diagonal)
